@@ -3,8 +3,13 @@ package main
 import (
 	"fmt"
 	"math"
+	"os"
+	"regexp"
+	"sort"
 	"strings"
 	"time"
+
+	"github.com/semihalev/twig"
 
 	"verif/lib/vlib"
 )
@@ -105,8 +110,36 @@ var shapes = func() []shape {
 			}
 			return r
 		}(), false, false},
+		// numbers that pass a sign / zero test as floats and become 0, negative or garbage once they
+		// are truncated to an integer: fractions strictly between 0 and 1 (also as float32 and as
+		// numeric strings), magnitudes beyond every integer type, the first float beyond int64
+		{"f05", 0.5, false, true}, {"f0999", 0.999, false, true}, {"fm05", -0.5, false, true}, {"f32f", float32(0.9), false, false},
+		{"sf05", "0.5", false, true}, {"se300", "1e300", true, true},
+		{"e300", 1e300, true, false}, {"me300", -1e300, true, false}, {"tiny", 5e-324, false, false}, {"f2p63", 9223372036854775808.0, true, false},
+		// values of a comparable TYPE whose contents cannot be hashed or compared (a struct / array
+		// with an interface field that holds a list), alone and inside lists above the 50-element
+		// threshold; the whole space of these is family `gh` (hash.go), these representatives meet
+		// every construct of the grid
+		{"cellL", Cell{"tags", []string{"a", "b"}}, false, false}, {"arrL", [2]interface{}{"pair", []int{1, 2}}, false, false},
+		{"bigcell", bigList(60, Cell{"tags", []string{"a"}}), false, false},
+		{"bigarr", func() []interface{} { r := bigList(51, 3); r[50] = [2]interface{}{"pair", []int{1, 2}}; return r }(), false, false},
+		{"bigtcell", func() []Cell {
+			r := make([]Cell, 64)
+			for i := range r {
+				r[i] = Cell{"n", i}
+			}
+			r[33].Value = map[string]interface{}{"k": "v"}
+			return r
+		}(), false, false},
 	}
 }()
+
+// Cell: a comparable struct type (Go accepts it as a map key type); whether a given VALUE can be
+// hashed / compared depends on what the interface field holds.
+type Cell struct {
+	Label string
+	Value interface{}
+}
 
 func bigList(n int, odd interface{}) []interface{} {
 	r := make([]interface{}, n)
@@ -118,12 +151,13 @@ func bigList(n int, odd interface{}) []interface{} {
 }
 
 // second-argument shapes
-var bShapes = []string{"i1", "nil", "s", "l", "m", "im3", "ls", "st", "imax", "imin", "big"}
+var bShapes = []string{"i1", "nil", "s", "l", "m", "im3", "ls", "st", "imax", "imin", "big", "f05", "e300", "sf05", "cellL"}
 
 // first-argument shapes of the quick tier (thorough: all): one representative per kind
 var aQuick = []string{"nil", "true", "i1", "im3", "u8", "imax", "f", "nan", "s0", "s", "sbad", "sfmt", "named",
-	"l0", "l", "ls", "arr", "m", "msi", "mis", "mii", "st", "npst", "ns", "fn", "big", "bigt"}
-var bQuick = []string{"i1", "nil", "s", "l", "imax"}
+	"l0", "l", "ls", "arr", "m", "msi", "mis", "mii", "st", "npst", "ns", "fn", "big", "bigt",
+	"f05", "f0999", "f32f", "sf05", "e300", "inf", "ninf", "cellL", "bigcell", "bigtcell"}
+var bQuick = []string{"i1", "nil", "s", "l", "imax", "f05"}
 
 var shapeByName = func() map[string]*shape {
 	m := map[string]*shape{}
@@ -142,51 +176,144 @@ type construct struct {
 	src      string
 	a, b     bool // uses the operands a, b
 	sizeArgs bool // operands drive the size of the result: shapes marked huge are skipped
+	unknown  bool // built from a name discovered in the engine: the huge integers are withheld
 }
 
-var filters = []string{"default", "escape", "e", "upper", "lower", "trim", "raw", "length", "count", "join", "split", "date", "url_encode", "capitalize", "title", "first", "last", "slice", "reverse", "sort", "keys", "merge", "replace", "striptags", "number_format", "abs", "round", "nl2br", "format", "json_encode", "spaceless", "nosuchfilter"}
-var functions = []string{"range", "date", "random", "max", "min", "dump", "constant", "cycle", "include", "json_encode", "length", "merge", "parent", "block", "attribute", "nosuchfunction"}
-var tests = []string{"defined", "empty", "null", "none", "even", "odd", "iterable", "same_as", "divisible_by", "constant", "equalto", "sameas", "starts_with", "ends_with", "matches", "nosuchtest"}
-var binops = []string{"+", "-", "*", "/", "%", "^", "==", "!=", "<", ">", "<=", ">=", "and", "or", "~", "in", "not in", "matches", "starts with", "ends with", "..", "??", "//", "b-and", "is", "<=>"}
+// The names the check was written with. They keep their place so that the enumeration order (and
+// the meaning of a truncated run) does not change; every further name that the engine under test
+// registers in its core extension is appended in sorted order (namesOf), so a filter / function /
+// test / word operator added to the engine later is swept with the same call forms and the same
+// argument shapes as the others. The last entry of each list does not exist (an error is fine).
+var filtersFixed = []string{"default", "escape", "e", "upper", "lower", "trim", "raw", "length", "count", "join", "split", "date", "url_encode", "capitalize", "title", "first", "last", "slice", "reverse", "sort", "keys", "merge", "replace", "striptags", "number_format", "abs", "round", "nl2br", "format", "json_encode", "spaceless", "nosuchfilter"}
+var functionsFixed = []string{"range", "date", "random", "max", "min", "dump", "constant", "cycle", "include", "json_encode", "length", "merge", "parent", "block", "attribute", "nosuchfunction"}
+var testsFixed = []string{"defined", "empty", "null", "none", "even", "odd", "iterable", "same_as", "divisible_by", "constant", "equalto", "sameas", "starts_with", "ends_with", "matches", "nosuchtest"}
+var binopsFixed = []string{"+", "-", "*", "/", "%", "^", "==", "!=", "<", ">", "<=", ">=", "and", "or", "~", "in", "not in", "matches", "starts with", "ends with", "..", "??", "//", "b-and", "is", "<=>"}
+
+var reName = regexp.MustCompile(`^[A-Za-z_][A-Za-z0-9_]*( [A-Za-z_][A-Za-z0-9_]*)*$`)
+
+// namesOf: fixed, then the registered names that are not in it (sorted; only plain identifiers - or
+// words separated by one space for operators - so that a name cannot change the shape of the
+// generated source). discovered collects the appended ones for the evidence file.
+var discovered []string
+
+func namesOf(kind string, fixed []string, registered []string) []string {
+	have := map[string]bool{}
+	for _, n := range fixed {
+		have[n] = true
+	}
+	sort.Strings(registered)
+	out := append([]string{}, fixed...)
+	for _, n := range registered {
+		if !have[n] && reName.MatchString(n) && len(n) <= 40 {
+			have[n] = true
+			out = append(out, n)
+			discovered = append(discovered, kind+" "+n)
+			unknownName[kind+" "+n] = true
+		}
+	}
+	return out
+}
+
+// unknownName: names this check has no knowledge about. Whether one of their arguments drives the
+// SIZE of the result cannot be known, so the three huge integers (imax, imin, umax) are withheld
+// from them (see Exclusions: result sizes); fractions, huge floats, NaN and +-Inf are not an
+// acceptable size for anything and are given to them like every other shape.
+var unknownName = map[string]bool{}
+
+func hugeInt(s *shape) bool { return s.name == "imax" || s.name == "imin" || s.name == "umax" }
+
+// withheld: is shape s kept away from construct c as (first) argument / subject? Result sizes: the
+// shapes marked huge for the constructs whose operands drive a size, the huge integers for names the
+// check knows nothing about; and for both, time.Second in the forms that compute with it - `a / 4`
+// makes the plain number 250 000 000 out of it (round / number_format would print that many
+// decimals, range that many elements), which is a size like 2^63 and not a shape of its own.
+func withheld(c *construct, s *shape) bool {
+	if c.sizeArgs && s.huge || c.unknown && hugeInt(s) {
+		return true
+	}
+	return (c.sizeArgs || c.unknown) && s.name == "dur" && strings.Contains(c.src, "a / 4")
+}
+
+var filters, functions, tests, binops = func() (fi, fu, te, bo []string) {
+	core := &twig.CoreExtension{}
+	keys := func(m interface{}) []string {
+		var ks []string
+		switch m := m.(type) {
+		case map[string]twig.FilterFunc:
+			for k := range m {
+				ks = append(ks, k)
+			}
+		case map[string]twig.FunctionFunc:
+			for k := range m {
+				ks = append(ks, k)
+			}
+		case map[string]twig.TestFunc:
+			for k := range m {
+				ks = append(ks, k)
+			}
+		case map[string]twig.OperatorFunc:
+			for k := range m {
+				ks = append(ks, k)
+			}
+		}
+		return ks
+	}
+	fi = namesOf("filter", filtersFixed, keys(core.GetFilters()))
+	fu = namesOf("function", functionsFixed, keys(core.GetFunctions()))
+	te = namesOf("test", testsFixed, keys(core.GetTests()))
+	bo = namesOf("operator", binopsFixed, keys(core.GetOperators()))
+	return
+}()
 
 var constructs = func() []construct {
 	var cs []construct
 	for _, f := range filters {
 		size := f == "format" || f == "number_format" || f == "round" || f == "date"
+		unk := unknownName["filter "+f]
 		cs = append(cs,
-			construct{"{{ v|" + f + " }}", false, false, size},
-			construct{"{{ v|" + f + "(a) }}", true, false, size},
-			construct{"{{ v|" + f + "(a, b) }}", true, true, size},
-			construct{"{{ v|" + f + "(a, b, a) }}", true, true, size},
-			construct{"{% apply " + f + "(a) %}t{{ v }}{% endapply %}", true, false, size},
+			construct{"{{ v|" + f + " }}", false, false, size, unk},
+			construct{"{{ v|" + f + "(a) }}", true, false, size, unk},
+			construct{"{{ v|" + f + "(a, b) }}", true, true, size, unk},
+			construct{"{{ v|" + f + "(a, b, a) }}", true, true, size, unk},
+			construct{"{% apply " + f + "(a) %}t{{ v }}{% endapply %}", true, false, size, unk},
+			// an argument computed in the template (i1 -> 0.25, u8 -> 0.75, im3 -> -0.75, ...), and
+			// every first-argument shape in second place
+			construct{"{{ v|" + f + "(a / 4) }}", true, false, size, unk},
+			construct{"{{ v|" + f + "(1, a) }}", true, false, size, unk},
 		)
 	}
 	for _, f := range functions {
 		size := f == "range" || f == "date" || f == "random"
+		unk := unknownName["function "+f]
 		cs = append(cs,
-			construct{"{{ " + f + "(v) }}", false, false, size},
-			construct{"{{ " + f + "(v, a) }}", true, false, size},
-			construct{"{{ " + f + "(v, a, b) }}", true, true, size},
-			construct{"{{ " + f + "(a, v, b, a) }}", true, true, size},
+			construct{"{{ " + f + "(v) }}", false, false, size, unk},
+			construct{"{{ " + f + "(v, a) }}", true, false, size, unk},
+			construct{"{{ " + f + "(v, a, b) }}", true, true, size, unk},
+			construct{"{{ " + f + "(a, v, b, a) }}", true, true, size, unk},
+			construct{"{{ " + f + "(a / 4) }}", true, false, size, unk},
+			construct{"{{ " + f + "(v, a / 4) }}", true, false, size, unk},
 		)
 	}
 	for _, f := range functions {
-		cs = append(cs, construct{"{{ " + f + "() }}", false, false, false})
+		cs = append(cs, construct{"{{ " + f + "() }}", false, false, false, false})
 	}
 	for _, f := range tests {
+		unk := unknownName["test "+f]
 		cs = append(cs,
-			construct{"{{ v is " + f + " ? 1 : 0 }}", false, false, false},
-			construct{"{{ v is " + f + "(a) ? 1 : 0 }}", true, false, false},
-			construct{"{{ v is not " + f + "(a) ? 1 : 0 }}", true, false, false},
-			construct{"{{ v is " + f + "(a, b) ? 1 : 0 }}", true, true, false},
+			construct{"{{ v is " + f + " ? 1 : 0 }}", false, false, false, unk},
+			construct{"{{ v is " + f + "(a) ? 1 : 0 }}", true, false, false, unk},
+			construct{"{{ v is not " + f + "(a) ? 1 : 0 }}", true, false, false, unk},
+			construct{"{{ v is " + f + "(a, b) ? 1 : 0 }}", true, true, false, unk},
+			construct{"{{ v is " + f + "(a / 4) ? 1 : 0 }}", true, false, false, unk},
 		)
 	}
 	for _, o := range binops {
 		size := o == ".."
+		unk := unknownName["operator "+o]
 		cs = append(cs,
-			construct{"{{ (v " + o + " a) ? 1 : 0 }}", true, false, size},
-			construct{"{{ v " + o + " a }}", true, false, size},
-			construct{"{% if v " + o + " a %}1{% endif %}", true, false, size},
+			construct{"{{ (v " + o + " a) ? 1 : 0 }}", true, false, size, unk},
+			construct{"{{ v " + o + " a }}", true, false, size, unk},
+			construct{"{% if v " + o + " a %}1{% endif %}", true, false, size, unk},
 		)
 	}
 	for _, s := range []string{
@@ -204,27 +331,54 @@ var constructs = func() []construct {
 		"{{ v ~ v }}", "{{ v + v }}", "{{ v == v ? 1 : 0 }}", "{{ v < v ? 1 : 0 }}", "{{ v in v ? 1 : 0 }}", "{{ v is same_as(v) ? 1 : 0 }}", "{{ v matches v ? 1 : 0 }}", "{{ v starts with v ? 1 : 0 }}", "{{ max(v) }}", "{{ min(v) }}", "{{ max(v, v) }}", "{{ min([v, 1]) }}", "{{ cycle(v, 1) }}", "{{ cycle([1, 2], v) }}", "{{ dump(v) }}", "{{ length(v) }}", "{{ merge(v, v) }}", "{{ json_encode(v) }}",
 		"{% apply upper %}{{ v }}{% endapply %}", "{% spaceless %}<a> {{ v }} </a>{% endspaceless %}", "{% block k %}{{ v }}{% endblock %}", "{% macro q(p) %}{{ p }}{{ p.a }}{{ p[0] }}{% endmacro %}{{ q(v) }}", "{% macro q(p = 1) %}{{ p }}{% endmacro %}{{ q(v, v) }}",
 	} {
-		cs = append(cs, construct{s, false, false, false})
+		cs = append(cs, construct{s, false, false, false, false})
 	}
 	for _, s := range []string{
 		"{{ v[a] }}", "{{ a[v] }}", "{{ v[a][a] }}", "{{ v[a:] }}", "{{ v[:a] }}", "{{ v[a:a] }}", "{{ attribute(v, a) }}", "{{ v|slice(a) }}", "{{ v|slice(0, a) }}", "{{ v[a].k }}", "{{ {(a): v}|length }}", "{{ {(a): v, (v): a}|keys|join }}",
 		"{% for x in v %}{{ x[a] }}{{ a[x] }}{% endfor %}", "{% for k, x in v %}{{ k in a ? 1 : 0 }}{{ x == a ? 1 : 0 }}{% endfor %}", "{{ [v, a]|sort|join }}", "{{ [v, a]|join(a) }}", "{{ [a, v, a]|reverse|first }}", "{{ max(v, a) }}", "{{ min([v, a]) }}", "{{ v|merge(a)|merge(v)|length }}", "{{ v|merge(a)|sort|join }}", "{{ v|merge(a)|keys|join }}", "{{ v|default(a)|length }}",
 		"{% include 's' with {'x': v} %}{% include a ignore missing %}", "{% set q = v %}{% set q = q|merge(a) %}{{ q|length }}", "{{ v is same_as(a) ? 1 : 0 }}{{ a is same_as(v) ? 1 : 0 }}", "{{ cycle(v, a) }}", "{{ v ? a : v }}", "{{ (v ?? a) ? 1 : 0 }}", "{{ v.a(a) }}", "{{ v.Greet(a) }}", "{{ v.Variadic(a, a) }}", "{{ v(a) }}", "{{ v(a, a) }}",
 	} {
-		cs = append(cs, construct{s, true, false, false})
+		cs = append(cs, construct{s, true, false, false, false})
 	}
 	for _, s := range []string{"{{ v[a][b] }}", "{{ v[a:b] }}", "{{ v|slice(a, b) }}", "{{ v|replace({(a): b}) }}", "{{ range(v, a, b)|length }}", "{{ v|merge(a)|merge(b)|length }}", "{{ v ? a : b }}", "{{ [v, a, b]|sort|join }}", "{{ {(v): a}|merge({(a): b})|length }}"} {
-		cs = append(cs, construct{s, true, true, strings.Contains(s, "range")})
+		cs = append(cs, construct{s, true, true, strings.Contains(s, "range"), false})
 	}
 	return cs
 }()
 
+// development aids: C05_GRID_A / C05_GRID_B = comma-separated shape names; only cases whose first /
+// second argument is one of them are run (never set by run.sh)
+var gridOnlyA, gridOnlyB = nameSet(os.Getenv("C05_GRID_A")), nameSet(os.Getenv("C05_GRID_B"))
+
+func nameSet(s string) map[string]bool {
+	if s == "" {
+		return nil
+	}
+	m := map[string]bool{}
+	for _, n := range strings.Split(s, ",") {
+		m[n] = true
+	}
+	return m
+}
+
 func runGrid(t *vlib.T) {
 	for ci := range constructs {
 		c := &constructs[ci]
+		if (gridOnlyA != nil && !c.a) || (gridOnlyB != nil && !c.b) {
+			continue
+		}
+		if g := os.Getenv("C05_GRID_SRC"); g != "" { // development aid: constructs containing one of the |-separated substrings
+			hit := false
+			for _, sub := range strings.Split(g, "|") {
+				hit = hit || strings.Contains(c.src, sub)
+			}
+			if !hit {
+				continue
+			}
+		}
 		for vi := range shapes {
 			v := &shapes[vi]
-			if c.sizeArgs && v.huge {
+			if c.sizeArgs && v.huge || c.unknown && hugeInt(v) {
 				continue
 			}
 			as := []*shape{shapeByName["i1"]}
@@ -241,7 +395,10 @@ func runGrid(t *vlib.T) {
 				}
 			}
 			for _, a := range as {
-				if c.sizeArgs && a.huge {
+				if gridOnlyA != nil && !gridOnlyA[a.name] {
+					continue
+				}
+				if withheld(c, a) {
 					continue
 				}
 				bs := bShapes[:1]
@@ -254,6 +411,12 @@ func runGrid(t *vlib.T) {
 				for _, bn := range bs {
 					if t.Stopped() {
 						return
+					}
+					if gridOnlyB != nil && !gridOnlyB[bn] {
+						continue
+					}
+					if c.b && c.unknown && hugeInt(shapeByName[bn]) {
+						continue
 					}
 					key := "g|" + c.src + "|" + v.name
 					if c.a {
